@@ -79,7 +79,7 @@ def run(ctx: core.Ctx) -> int:
                           "steps": steps,
                           "label": anncases.label(file=fname, body=kind, history=[s["b"]["name"] for s in h],
                                                   flavours=[st["flavour"] for st in steps])})
-    evl = core.pmap(annhist.run_history, cases, chunksize=8)
+    evl = ctx.pmap(annhist.run_history, cases, chunksize=8)
     events = [e for es in evl for e in es]
     for ev in [e for e in events if e["k"] >= 2][:: max(1, len(events) // 4)][:4]:
         ctx.samples.append({"case": json.loads(ev["label"]), "step": ev["k"], "cmd": ev["cmd"], "exit": ev["exit"],
@@ -104,4 +104,4 @@ def run(ctx: core.Ctx) -> int:
 
 
 def replay(ctx: core.Ctx, path: str) -> int:
-    raise core.MachineryError("replay for the annotate family re-runs the case list; use the check with the same VERIF_SEED")
+    return core.generic_replay(ctx, path)
